@@ -93,3 +93,47 @@ impl VStr for str {
     #[verifier::external_body]
     fn v_eq(&self, other: &str) -> (r: bool) { unimplemented!() }
 }
+
+// ---- str::split(char) as an iterator (prophetic iterator protocol of vstd::std_specs::iter) ----
+/// the segments of `b` between occurrences of the byte `c`, in order (uninterpreted: std `str::split` semantics; always at least one segment)
+pub uninterp spec fn str_split(b: Seq<u8>, c: u8) -> Seq<Seq<u8>>;
+#[verifier::external_body]
+pub broadcast proof fn axiom_str_split_nonempty(b: Seq<u8>, c: u8) ensures #[trigger] str_split(b, c).len() >= 1 {}
+pub open spec fn strs_bytes(s: Seq<&str>) -> Seq<Seq<u8>> { Seq::new(s.len(), |i: int| strb(s[i])) }
+#[verifier::external_body]
+pub struct VSplit<'a> { s: &'a str }
+impl<'a> VSplit<'a> {
+    pub uninterp spec fn rem(&self) -> Seq<&'a str>;
+}
+impl<'a> Iterator for VSplit<'a> {
+    type Item = &'a str;
+    #[verifier::external_body]
+    fn next(&mut self) -> (r: Option<&'a str>) { unimplemented!() }
+}
+impl<'a> vstd::std_specs::iter::IteratorSpecImpl for VSplit<'a> {
+    open spec fn obeys_prophetic_iter_laws(&self) -> bool { true }
+    #[verifier::prophetic]
+    open spec fn remaining(&self) -> Seq<&'a str> { self.rem() }
+    #[verifier::prophetic]
+    open spec fn will_return_none(&self) -> bool { true }
+    open spec fn decrease(&self) -> Option<nat> { Some(self.rem().len()) }
+    open spec fn peek(&self, i: int) -> Option<&'a str> { if 0 <= i < self.rem().len() { Some(self.rem()[i]) } else { None } }
+}
+pub trait VStrSplit {
+    spec fn sb2(&self) -> Seq<u8>;
+    /// str::split(char) for an ASCII char
+    fn v_split_c<'a>(&'a self, c: char) -> (r: VSplit<'a>)
+        requires (c as u32) < 128
+        ensures strs_bytes(r.rem()) == str_split(self.sb2(), c as u8);
+    /// str::rsplit(char): the same segments, last first
+    fn v_rsplit_c<'a>(&'a self, c: char) -> (r: VSplit<'a>)
+        requires (c as u32) < 128
+        ensures strs_bytes(r.rem()) == str_split(self.sb2(), c as u8).reverse();
+}
+impl VStrSplit for str {
+    open spec fn sb2(&self) -> Seq<u8> { strb(self) }
+    #[verifier::external_body]
+    fn v_split_c<'a>(&'a self, c: char) -> (r: VSplit<'a>) { unimplemented!() }
+    #[verifier::external_body]
+    fn v_rsplit_c<'a>(&'a self, c: char) -> (r: VSplit<'a>) { unimplemented!() }
+}
